@@ -9,8 +9,9 @@
    property predicates of IvAvl (FastJudge = Judge, see IvAvl PART 3) against
    the structure of the previous line and the set of nodes that must be in
    the tree: a non-empty verdict is printed as  VIOL {"line":..,"sigs":[..]}.
-   After a violation nothing is judged until the next "set" line (the
-   structure is then not a legal starting point any more).
+   After a STRUCTURAL violation nothing is judged until the next "set" line
+   (the structure is then not a legal starting point any more); after a wrong
+   return value or a wrong walk over a correct structure judging goes on.
 
    LOCK-STEP.  Independently, the model (IvAvl PART 1) is applied to the
    previous REAL structure and must produce the logged structure, return
@@ -21,7 +22,7 @@
 
    "set" lines (direct pointer construction by the harness) restart from the
    logged structure; it must itself be a correct tree (else BADSET: a bug in
-   the driver, not in the code).  A script that deletes an absent node or
+   the driver, not in the code) and the real walks over it are judged.  A script that deletes an absent node or
    inserts a linked one is BADOP (also a driver bug).
 
    TLC note: everything a step computes is a pure operator of (st, line) and
@@ -36,7 +37,7 @@ VARIABLES l,        \* next line to consume
           st        \* [cur, members, judging, cnt, msg]:
                     \*   cur      the real structure after line l-1
                     \*   members  the nodes that must be linked in cur
-                    \*   judging  FALSE after a violation / bad set, until the next "set"
+                    \*   judging  FALSE after a structural violation, until the next "set"
                     \*   cnt      counters
                     \*   msg      what this step has to report ("" = nothing)
 tvars == <<l, st>>
@@ -63,10 +64,14 @@ SetLine(s, e, ln) ==
   LET t  == Struct(e, e.keys)
       sc == Scan(t, t.root, NULL)
       S  == Range(sc.seq)
-      ok == ViolsOfScan(t, S, sc) = {} /\ e.fwd = sc.seq /\ e.bwd = Reverse(sc.seq)
+      ok == ViolsOfScan(t, S, sc) = {}
+      tv == ok /\ ~(e.fwd = sc.seq /\ e.bwd = Reverse(sc.seq))   \* the real walks
   IN [cur |-> t, members |-> S, judging |-> ok,
-      cnt |-> [s.cnt EXCEPT !.bad = @ + (IF ok THEN 0 ELSE 1)],
-      msg |-> IF ok THEN "" ELSE "BADSET " \o ToJson([line |-> ln])]
+      cnt |-> [s.cnt EXCEPT !.bad = @ + (IF ok THEN 0 ELSE 1),
+                            !.viol = @ + (IF tv THEN 1 ELSE 0)],
+      msg |-> IF ~ok THEN "BADSET " \o ToJson([line |-> ln])
+              ELSE IF tv THEN "VIOL " \o ToJson([line |-> ln, sigs |-> {"traversal"}])
+              ELSE ""]
 
 OpLine(s, e, ln) ==
   LET op    == OpOf(e)
@@ -75,7 +80,9 @@ OpLine(s, e, ln) ==
       legal == IF op.kind = "ins" THEN op.n \in Ids(s.cur) /\ op.n \notin s.members
                                   ELSE op.n \in s.members
       sc    == Scan(post, post.root, NULL)
+      S1    == SetAfter(pre, s.members, op)
       v     == FastJudgeScan(pre, s.members, op, e.ret, post, e.fwd, e.bwd, sc)
+      go    == ViolsOfScan(post, S1, sc) = {}     \* still a legal starting point
       model == Apply(s.cur, op)
       same  == /\ model.t = post /\ model.ret = e.ret
                /\ Forward(post) = e.fwd /\ Backward(post) = e.bwd
@@ -85,14 +92,14 @@ OpLine(s, e, ln) ==
            cnt |-> [s.cnt EXCEPT !.bad = @ + 1],
            msg |-> "BADOP " \o ToJson([line |-> ln])]
      ELSE IF v # {}
-     THEN [cur |-> post, members |-> SetAfter(pre, s.members, op), judging |-> FALSE,
+     THEN [cur |-> post, members |-> S1, judging |-> go,
            cnt |-> [Bump(s.cnt, dup, e.chg) EXCEPT !.viol = @ + 1],
            msg |-> "VIOL " \o ToJson([line |-> ln, sigs |-> v])]
      ELSE IF ~same
-     THEN [cur |-> post, members |-> SetAfter(pre, s.members, op), judging |-> TRUE,
+     THEN [cur |-> post, members |-> S1, judging |-> TRUE,
            cnt |-> [Bump(s.cnt, dup, e.chg) EXCEPT !.drift = @ + 1],
            msg |-> IF s.cnt.drift < 3 THEN "DRIFT " \o ToJson([line |-> ln]) ELSE ""]
-     ELSE [cur |-> post, members |-> SetAfter(pre, s.members, op), judging |-> TRUE,
+     ELSE [cur |-> post, members |-> S1, judging |-> TRUE,
            cnt |-> Bump(s.cnt, dup, e.chg), msg |-> ""]
 
 SkipLine(s, e) ==   \* after a violation: consume, keep the structure current
